@@ -41,6 +41,8 @@ struct AllocSim
 	long fired = 0;                  // failures injected since begin_op()
 	long cap_refused = 0;
 	size_t cap = (size_t)64 << 20;   // finite capacity per request
+	unsigned char junk = 0xbe;       // fresh memory handed to the library (malloc, grown part of realloc) is filled with this byte: reads of
+	                                 // uninitialised memory become deterministic wrong values instead of whatever the heap held (varies per run)
 	std::string last_fail_site;      // call-site chain of the last injected failure
 	std::vector<std::string> fail_sites; // all injected failure sites since begin_op()
 	// totals per run
